@@ -81,6 +81,24 @@ func c11Coerce(vars func() map[string]any) func(s *ast.Schema) string {
 	}
 }
 
+// c11CoerceDoc: like c11Coerce for a document of its own.
+func c11CoerceDoc(text string, vars func() map[string]any) func(s *ast.Schema) string {
+	return func(s *ast.Schema) string {
+		doc, err := parser.ParseQuery(&ast.Source{Name: "q.graphql", Input: text})
+		if err != nil {
+			return "parse: " + err.Error()
+		}
+		if errs := validator.Validate(s, doc); len(errs) > 0 {
+			return "invalid: " + errSig(errs)
+		}
+		out, cerr := validator.VariableValues(s, doc.Operations[0], vars())
+		if cerr != nil {
+			return "error: " + cerr.Error()
+		}
+		return goRepr(out)
+	}
+}
+
 func c11ArgMap(onDirective bool) func(s *ast.Schema) string {
 	return func(s *ast.Schema) string {
 		doc, err := parser.ParseQuery(&ast.Source{Name: "q.graphql", Input: c11VarsDoc})
@@ -130,6 +148,13 @@ var c11Ops = []c11Op{
 		return res
 	}},
 	{"validate-typename-everywhere", c11Validate(`{ __typename pet { __typename owner { __typename pets { __typename } } } node(id: 1) { __typename } named { __typename } search { __typename } trio { __typename ... on Robot { __typename } } }`)},
+	// @oneOf input objects supplied through variables: one member, then the other (nested under a list too)
+	{"coerce-oneof-first-member", c11CoerceDoc(`query O($o: OneIn, $os: [OneIn!]) { one(arg: $o) a: one(arg: {a: 1}) }`, func() map[string]any {
+		return map[string]any{"o": map[string]any{"a": 1}, "os": []any{map[string]any{"a": 2}}}
+	})},
+	{"coerce-oneof-second-member", c11CoerceDoc(`query O($o: OneIn, $os: [OneIn!]) { one(arg: $o) b: one(arg: {b: "x"}) }`, func() map[string]any {
+		return map[string]any{"o": map[string]any{"b": "x"}, "os": []any{map[string]any{"b": "y"}, map[string]any{"a": 3}}}
+	})},
 	{"validate-suggestions", c11Validate(`{ nam pett { id } node(idd: 1) { id } search(q: 1, ks: [DOGG]) { __typename } ... on Pett { id } }`)},
 	{"validate-introspection", c11Validate(`{ __schema { types { ...T } } __type(name: "Pet") { fields { name } } } fragment T on __Type { name fields { name } }`)},
 	{"validate-variables", c11Validate(c11VarsDoc)},
@@ -786,6 +811,40 @@ func runC11(c *explore.Ctx) {
 
 	// 3: interleavings
 	bound := c.Pick(2, 3)
+	// the process-wide rule registry is read, not rearranged, by validations under the default rule set (sequential:
+	// registering a rule is a write of the caller's, so this is no operation of the shared alphabet)
+	s = c.Sub("registry-read-only", fmt.Sprintf("a rule of the caller's registered under a name that sorts before / between / after the standard rules, then every validating operation of the alphabet (%d) under the default rule set", len(c11Ops)),
+		"no package-level variable of the library (the rule registry among them) differs before and after the validation", "every case")
+	if s != nil && c.Shard == 0 {
+		t0 := time.Now()
+		schema := c11Load()
+		for _, name := range []string{"AAA-first-by-name", "LoneAnonymousOperationZ", "zzz-last-by-name"} {
+			validator.AddRule(name, func(observers *validator.Events, addError validator.AddErrFunc) {
+				observers.OnOperation(func(walker *validator.Walker, op *ast.OperationDefinition) {
+					addError(validator.Message("custom rule saw an operation"), validator.At(op.Position))
+				})
+			})
+			for o, op := range c11Ops {
+				if !strings.HasPrefix(op.Name, "validate") {
+					continue
+				}
+				s.States++
+				s.Executions++
+				s.Transitions++
+				before := globalsSnapshot()
+				res := op.Run(schema)
+				d := globalsDiff(before, globalsSnapshot())
+				s.Validated++
+				s.Outcome("unchanged")
+				if d != "" {
+					c.Report(s, explore.Violation{Key: "drift/global rule-registry op=" + op.Name + " custom=" + name, Input: explore.J(map[string]any{"op": o, "custom": name}), Rendered: op.Name + " with a rule registered as " + name,
+						Detail: "a validation under the default rule set changed package-level state: " + d, Observed: res})
+				}
+			}
+			validator.RemoveRule(name)
+		}
+		s.WallS = time.Since(t0).Seconds()
+	}
 	s = c.Sub("interleavings-2", fmt.Sprintf("every ordered pair of operations (%d) as two threads on one shared schema, every schedule with ≤ %d preemptions over the scheduling points (statements touching package-level state, stores into shared memory)", n*n, bound),
 		"under every schedule each call returns its run-alone result, the schema snapshot is unchanged and the write monitor is silent", "schedules with at least one switch")
 	if s != nil {
